@@ -12,6 +12,8 @@ import (
 var _ = verifReg("C15ai", VerifC15ai)
 var _ = verifReg("C15from", VerifC15from)
 var _ = verifReg("C15rt", VerifC15rt)
+var _ = verifReg("C15hdr", VerifC15hdr)
+var _ = verifReg("C15crud", VerifC15crud)
 var _ = verifReg("C05from", VerifC05from)
 var _ = verifReg("C06from", VerifC06from)
 
@@ -278,4 +280,82 @@ func verifGenItem(name string) []byte {
 	b := ndBytes(name + ".content")
 	ndAssume(len(b) == l)
 	return append(out, b...)
+}
+
+// ---------- (b) ToCBOR map header for EVERY entry count (symbolic n) ----------
+
+func VerifC15hdr() {
+	n := ndInt("n")
+	ndAssume(n >= 0 && n <= ndParam("maxn", 70000))
+	var em cbor.EncMode = verifExactEM{}
+	if !ndSymbolic() {
+		em, _ = verifRealModes()
+	}
+	sf := newStructFieldsCBOR()
+	sf.Keys = ndFakeLenInts(n)
+	if !ndSymbolic() {
+		for i := 0; i < n; i++ {
+			sf.Fields[i] = cbor.RawMessage{0x00}
+		}
+	}
+	var out []byte
+	var err error
+	sofar, cut := ndAtFirstLoop("ToCBOR", func() { out, err = sf.ToCBOR(em) })
+	want := verifHead(5, uint64(n))
+	if cut {
+		// everything written before the first key/value pair is exactly head(major 5, n)
+		ndAssert("hdr-is-rfc8949-head-of-entry-count", verifSameBytes(sofar, want))
+	} else {
+		ndAssert("hdr-is-rfc8949-head-of-entry-count", err == nil && len(out) >= len(want) && verifSameBytes(out[:len(want)], want) && (n > 0 || len(out) == 1))
+	}
+	ndCover("hdr-23", n == 23)
+	ndCover("hdr-24", n == 24)
+	ndCover("hdr-255", n == 255)
+	ndCover("hdr-256", n == 256)
+	ndCover("hdr-65535", n == 65535)
+	ndCover("hdr-65536", n == 65536)
+	ndCover("hdr-0", n == 0)
+}
+
+// ---------- ordered field map: Add / Delete / Get / Has keep Keys and Fields in step ----------
+
+func VerifC15crud() {
+	n := ndConcrete(verifChoice("n", 5))
+	o := newStructFieldsCBOR()
+	var keys []int
+	for i := 0; i < n; i++ {
+		k := ndInt(ndName("key", i))
+		if !verifDistinct(append(keys, k)) {
+			ndAssert("crud-add-duplicate-is-error", o.Add(k, cbor.RawMessage{byte(i)}) != nil && len(o.Keys) == len(keys))
+			return
+		}
+		if o.Add(k, cbor.RawMessage{byte(i)}) != nil {
+			ndAssert("crud-add-distinct-succeeds", false)
+			return
+		}
+		keys = append(keys, k)
+	}
+	del := ndInt("delete.key")
+	var want []int
+	for _, k := range keys {
+		if k != del {
+			want = append(want, k)
+		}
+	}
+	if ndTry(func() { o.Delete(del) }) {
+		return
+	}
+	same := len(o.Keys) == len(want) && len(o.Fields) == len(want)
+	for i := 0; same && i < len(want); i++ {
+		v, has := o.Get(want[i])
+		same = o.Keys[i] == want[i] && has && o.Has(want[i]) && len(v) == 1
+	}
+	ndAssert("crud-delete-keeps-insertion-order-and-agreement", same && !o.Has(del))
+	ndCover("crud-delete-middle", n == 4 && len(want) == 3 && keys[1] == del)
+}
+
+func verifChoice(name string, n int) int {
+	k := ndInt(name)
+	ndAssume(k >= 0 && k < n)
+	return k
 }
